@@ -62,7 +62,8 @@ pub enum Inner {
 }
 
 pub struct State {
-    pub inner: Inner,
+    /// boxed so that the store can be MOVED to another address while it holds entries (`relocate`)
+    pub inner: Box<Inner>,
     pub trace: Vec<String>,
     pub record: bool,
 }
@@ -112,31 +113,39 @@ impl Shared {
                 Inner::R(st)
             }
         };
-        Shared(Rc::new(RefCell::new(State { inner, trace: vec![], record: true })))
+        Shared(Rc::new(RefCell::new(State { inner: Box::new(inner), trace: vec![], record: true })))
+    }
+    /// move the store, entries and all, to a different memory address (Rust values may be moved at any time;
+    /// nothing about a store may depend on where it lives)
+    pub fn relocate(&self) {
+        let mut st = self.0.borrow_mut();
+        let mut fresh: Box<Inner> = Box::new(Inner::R(ProbabilisticStore::builder().capacity(0).build()));
+        std::mem::swap(&mut *fresh, &mut *st.inner);
+        st.inner = fresh; // the old allocation (now holding the placeholder) is freed after the new one exists
     }
     pub fn snapshot(&self) -> String {
-        match &self.0.borrow().inner {
+        match &*self.0.borrow().inner {
             Inner::P(s) => s.verif_snapshot(),
             Inner::A(s) => s.verif_snapshot(),
             Inner::R(s) => s.verif_snapshot(),
         }
     }
     pub fn sched(&self) -> String {
-        match &self.0.borrow().inner {
+        match &*self.0.borrow().inner {
             Inner::P(s) => s.verif_sched_state(),
             Inner::A(s) => s.verif_sched_state(),
             Inner::R(s) => s.verif_sched_state(),
         }
     }
     pub fn len_cap(&self) -> (usize, usize) {
-        match &self.0.borrow().inner {
+        match &*self.0.borrow().inner {
             Inner::P(s) => s.verif_len_capacity(),
             Inner::A(s) => s.verif_len_capacity(),
             Inner::R(s) => s.verif_len_capacity(),
         }
     }
     pub fn is_adaptive(&self) -> bool {
-        matches!(self.0.borrow().inner, Inner::A(_))
+        matches!(*self.0.borrow().inner, Inner::A(_))
     }
     /// the bit `len > capacity*3/4` that the adaptive store will evaluate on its next write
     pub fn pressure_bit(&self) -> Option<bool> {
@@ -215,7 +224,7 @@ impl Store for Shared {
         now: SystemTime,
     ) -> Result<bool, String> {
         let mut st = self.0.borrow_mut();
-        let r = match &mut st.inner {
+        let r = match &mut *st.inner {
             Inner::P(s) => s.compare_and_swap_with_ttl(key, old, new, ttl, now),
             Inner::A(s) => s.compare_and_swap_with_ttl(key, old, new, ttl, now),
             Inner::R(s) => s.compare_and_swap_with_ttl(key, old, new, ttl, now),
@@ -240,7 +249,7 @@ impl Store for Shared {
 
     fn get(&self, key: &str, now: SystemTime) -> Result<Option<i64>, String> {
         let mut st = self.0.borrow_mut();
-        let r = match &st.inner {
+        let r = match &*st.inner {
             Inner::P(s) => s.get(key, now),
             Inner::A(s) => s.get(key, now),
             Inner::R(s) => s.get(key, now),
@@ -264,7 +273,7 @@ impl Store for Shared {
         now: SystemTime,
     ) -> Result<bool, String> {
         let mut st = self.0.borrow_mut();
-        let r = match &mut st.inner {
+        let r = match &mut *st.inner {
             Inner::P(s) => s.set_if_not_exists_with_ttl(key, value, ttl, now),
             Inner::A(s) => s.set_if_not_exists_with_ttl(key, value, ttl, now),
             Inner::R(s) => s.set_if_not_exists_with_ttl(key, value, ttl, now),
